@@ -1,5 +1,6 @@
 """C14 -- split routes every read to the output its list entry selects (structural clauses)."""
 import ast
+import re
 
 from sa.model import walk_function, AnalysisError
 from sa.norm import u, atoms, guard_atoms, linear
@@ -108,21 +109,38 @@ def r1(ctx):
         ctx.ob(run.qual, "every-other-path-writes", None, run.loc(loop), "cannot enumerate the paths of one iteration of the input loop")
     else:
         bad = None
+        undecided = None
         kinds = set()
         for ps in its:
             wrote = any(e_[0] == "call" and isinstance(e_[1].func, ast.Attribute) and e_[1].func.attr == "write" and e_[3] is util.stmt_of(disp[0]) for e_ in ps.effects)
             if wrote:
                 continue
-            if ps.has("discard_unknown_reads", True) and ps.has("%s in known_reads" % name, False):
+            K = "known_reads if discard_unknown_reads else None"
+            disc = (ps.has("discard_unknown_reads", True) and ps.has("%s in known_reads" % name, False)) or ps.has("(discard_unknown_reads and not %s in known_reads)" % name, True) or ps.has("discard_unknown_reads and not %s in known_reads" % name, True) or (ps.has("None is %s" % K, False) and ps.has("%s in %s" % (name, K), False))
+            # haplotype outputs that were not requested: a false entry of the flag list, or absence from a set of requested outputs
+            unreq = any(t.startswith("process_haplotype[") and not p_ for t, p_ in ps.atoms)
+            if not unreq:
+                for t, p_ in ps.atoms:
+                    m_ = re.fullmatch(r"(.+) in (\w+)", t)
+                    if m_ and not p_ and m_.group(2) not in ("known_reads",):
+                        d_ = util.single_def(run.node, m_.group(2))
+                        if d_ is not None and isinstance(d_, (ast.SetComp, ast.Call)) and "outputs" in u(d_) and "readname_to_haplotype" in m_.group(1):
+                            unreq = True
+            if disc:
                 kinds.add("unknown read discarded on request")
-            elif any(t.startswith("process_haplotype[") and not p_ for t, p_ in ps.atoms):
+            elif unreq:
                 kinds.add("output for this haplotype not requested")
             else:
+                vocab = ("discard_unknown_reads", "known_reads", "process_haplotype", name, "readname_to_haplotype", "<iter>", "add_untagged", "read_haplotype", "haplotype")
+                foreign = [t for t, p_ in ps.atoms if not any(v_ in t for v_ in vocab)]
+                if foreign and undecided is None:
+                    undecided = ps
+                    continue
                 bad = ps
                 break
         for k_ in sorted(kinds):
             ctx.ob(run.qual, "skip:%s" % k_, True, run.loc(loop), "a read is passed over without being written when: %s" % k_)
-        ctx.ob(run.qual, "every-other-path-writes", bad is None, run.loc(loop), "every path of an iteration (%d) that is not one of the documented skips reaches the dispatch write" % len(its) if bad is None else "a path through the loop body reaches neither the dispatch write nor a documented skip (conditions on it: %s)" % sorted("%s%s" % ("" if p_ else "not ", t) for t, p_ in bad.atoms if not t.startswith("<"))[:6], cfg.describe_path(bad.path) if bad else None)
+        ctx.ob(run.qual, "every-other-path-writes", (bad is None) if (bad is not None or undecided is None) else None, run.loc(loop), "every path of an iteration (%d) that is not one of the documented skips reaches the dispatch write" % len(its) if bad is None else "a path through the loop body reaches neither the dispatch write nor a documented skip (conditions on it: %s)" % sorted("%s%s" % ("" if p_ else "not ", t) for t, p_ in bad.atoms if not t.startswith("<"))[:6], cfg.describe_path(bad.path) if bad else None)
     # both iterators yield every record
     for itname in ("_bam_iterator", "_fastq_string_iterator"):
         fi = ctx.func(MOD + "." + itname)
@@ -247,10 +265,24 @@ def r2(ctx):
     # list parsing: H<i> -> i, none -> 0, defaultdict(int)
     pl = ctx.func(MOD + ".process_haplotag_list_file")
     h2i = [v for _, v in util.assignments_to(pl.node, "haplotype_to_int") if isinstance(v, ast.AST)]
-    ok = (None if not h2i else (len(h2i) == 1 and isinstance(h2i[0], ast.DictComp) and isinstance(h2i[0].key, ast.JoinedStr) and u(h2i[0].key) == "f'H{%s}'" % u(h2i[0].value) and u(h2i[0].generators[0].iter).replace(" ", "") == "range(1,ploidy+1)"))
+    def is_h_comp(d_):
+        return isinstance(d_, ast.DictComp) and isinstance(d_.key, ast.JoinedStr) and u(d_.key) == "f'H{%s}'" % u(d_.value) and u(d_.generators[0].iter).replace(" ", "") == "range(1,ploidy+1)"
+
+    h_none_in_display = False
+    ok = None
+    if len(h2i) == 1 and isinstance(h2i[0], ast.Dict):
+        # {"none": 0, **{f"H{i}": i for i in range(1, ploidy + 1)}}
+        spreads = [v_ for k_, v_ in zip(h2i[0].keys, h2i[0].values) if k_ is None]
+        plain = {u(k_): u(v_) for k_, v_ in zip(h2i[0].keys, h2i[0].values) if k_ is not None}
+        ok = len(spreads) == 1 and is_h_comp(spreads[0]) and set(plain) <= {"'none'"}
+        h_none_in_display = plain.get("'none'") == "0"
+    elif h2i:
+        ok = len(h2i) == 1 and is_h_comp(h2i[0])
     ctx.ob(pl.qual, "H<i>-maps-to-i", ok, pl.loc(), "haplotype_to_int maps 'H<i>' to i for i in 1..ploidy" if ok else "haplotype_to_int is not {f'H{i}': i for i in range(1, ploidy + 1)}")
     none0 = [s for s in util.store_sites(pl.node) if s.kind == "subscript" and u(s.target.value) == "haplotype_to_int" and util.const_key(s.target) == "none"]
     ok = (None if not none0 else (len(none0) == 1 and isinstance(none0[0].value, ast.Constant) and none0[0].value.value == 0))
+    if not none0 and h_none_in_display:
+        ok = True
     ctx.ob(pl.qual, "none-maps-to-0", ok, pl.loc(), "'none' maps to output 0 (untagged)" if ok else "'none' does not map to 0")
     rdefs = [v for _, v in util.assignments_to(pl.node, "readname_to_haplotype") if isinstance(v, ast.AST)]
     def is_dd_int(v, depth=0):
@@ -294,11 +326,27 @@ def r2(ctx):
         okl = True if (inside_loop and feeds) else (False if not inside_loop else None)
         ctx.ob(sel.qual, "largest-block-of-every-chromosome-collected", okl, sel.loc(look[0]), "the reads of the largest block are added to the selection inside the chromosome loop" if okl else ("the block's reads are looked up after the chromosome loop: only the last chromosome's largest block is selected, reads of all other chromosomes are treated as untagged" if not inside_loop else "cannot see how the looked-up reads reach the returned selection"))
     rets = [n for n in walk_function(pl.node) if isinstance(n, ast.Return)]
-    ok = (None if not rets else (len(rets) == 1 and isinstance(rets[0].value, ast.Tuple) and u(rets[0].value.elts[0]) == "readname_to_haplotype"))
+    def is_the_map(e):
+        if u(e) == "readname_to_haplotype":
+            return True
+        if isinstance(e, ast.Name):
+            ds = [x for _, x in util.assignments_to(pl.node, e.id)]
+            # the largest-block restriction: defaultdict(int, {k: readname_to_haplotype[k] for k in selected})
+            return bool(ds) and all(isinstance(x, ast.Call) and u(x.func) in ("defaultdict", "collections.defaultdict") and len(x.args) == 2 and u(x.args[0]) == "int" and isinstance(x.args[1], ast.DictComp) and u(x.args[1].value) == "readname_to_haplotype[%s]" % u(x.args[1].key) for x in ds)
+        return False
+
+    ok = (None if not rets else all(isinstance(r_.value, ast.Tuple) and r_.value.elts and is_the_map(r_.value.elts[0]) for r_ in rets))
     ctx.ob(pl.qual, "returns-map-first", ok, pl.loc(rets[0]) if rets else pl.loc(), "the map is the first returned value" if ok else "process_haplotag_list_file does not return the map first")
     # untagged processing flag and add-untagged fan-out
     ph = [s for s in util.store_sites(run.node) if s.kind == "subscript" and u(s.target) == "process_haplotype[0]"]
     ok = (None if not ph else (len(ph) == 1 and isinstance(ph[0].value, ast.BoolOp) and isinstance(ph[0].value.op, ast.Or) and {u(v) for v in ph[0].value.values} == {"process_haplotype[0]", "add_untagged"}))
+    if not ph:
+        # set form: W = {i for i, o in enumerate(outputs) if o is not None}; if add_untagged: W.add(0)
+        for nm_ in {x.id for x in ast.walk(run.node) if isinstance(x, ast.Name)}:
+            d_ = util.single_def(run.node, nm_)
+            if isinstance(d_, ast.SetComp) and len(d_.generators) == 1 and u(d_.generators[0].iter) == "enumerate(outputs)" and isinstance(d_.generators[0].target, ast.Tuple) and u(d_.elt) == u(d_.generators[0].target.elts[0]) and len(d_.generators[0].ifs) == 1 and atoms(d_.generators[0].ifs[0], True) == {("None is %s" % u(d_.generators[0].target.elts[1]), False)}:
+                adds0 = [c for c in ctx.prog.calls_in(run.node) if u(c.func) == "%s.add" % nm_ and len(c.args) == 1 and u(c.args[0]) == "0"]
+                ok = len(adds0) == 1 and ("add_untagged", True) in guard_atoms(cfg, cfg.node_containing(adds0[0]))
     ctx.ob(run.qual, "add-untagged-enables-output-0", ok, run.loc(ph[0].stmt) if ph else run.loc(), "untagged reads are processed when --output-untagged or --add-untagged is given" if ok else "process_haplotype[0] is not `process_haplotype[0] or add_untagged`")
     fan = _fanout_writes(loop, rec)
     ok = False
